@@ -97,7 +97,12 @@ func c05Judge(cs *core.Case, ob *Obs, lc core.LocalCounts) {
 	// body markers: text the tokenizer reports right after a script/style start tag
 	sawBody := false
 	for i, t := range ob.InT {
-		if t.Type == html.StartTagToken && spec.IsScriptStyle(t.Name) {
+		// a self-closing <script/> is a start tag to every HTML5 tree builder (the slash is ignored
+		// on non-void elements) and the tokenizer reads what follows as script data all the same
+		if (t.Type == html.StartTagToken || t.Type == html.SelfClosingTagToken) && spec.IsScriptStyle(t.Name) {
+			if t.Type == html.SelfClosingTagToken {
+				lc["self_closing_script_style_in_input"]++
+			}
 			lc["script_style_start_tags_in_input"]++
 			if i+1 < len(ob.InT) && ob.InT[i+1].Type == html.TextToken {
 				sawBody = true
@@ -120,7 +125,7 @@ func c05Judge(cs *core.Case, ob *Obs, lc core.LocalCounts) {
 
 func runC05(ctx *core.Ctx) {
 	ctx.Rule = "policies that try to allow script/style (AllowElements, attributes on them, AllowNoAttrs, patterns .*/^s, AllowElementsContent, comments, spaces) x inputs with script/style in many syntactic forms (case, attributes, self-closing, unterminated, nested in svg/math/select/table, fake end tags, look-alike names, entity-encoded brackets) plus the general hostile generator and piece strings; oracle: no script/style tag or DOM element in the output, no marker planted in a script/style body in the output; non-trivial = input has a script/style start tag followed by a body, distinct by (policy, input)"
-	ctx.Assume("'inside' a script/style element is the raw-text token the tokenizer reports after its start tag; text after a self-closing <script/> is not inside", "AllowUnsafe is never called")
+	ctx.Assume("'inside' a script/style element is the raw-text token the tokenizer reports after its start tag, whether or not the tag is written with a self-closing slash (tree builders ignore the slash on non-void elements)", "AllowUnsafe is never called")
 	in := func(cs *core.Case, env *Env, i int) (string, bool) {
 		if i%4 == 3 {
 			return "", false
